@@ -233,6 +233,7 @@ type Env struct {
 	dead       bool
 	evDigest   []byte
 	lastErr    string
+	evm        *evmSide // the compiled contract side of the closed loop (evmloop profile)
 }
 
 func makeCodec() codec.Codec {
